@@ -75,7 +75,7 @@ func (c *Ctx) fanoutBranchGuard(kind string) core.Guard {
 // is behind `if pred(...)`), the same is decided inside the predicate: from the start edges no
 // return of the accepting outcome is reachable without a pass edge (parameters substituted).
 func (c *Ctx) fanoutFilteredFrom(fo fanout, start core.Guard, guards ...core.Guard) (bool, []int) {
-	edges, _ := core.PassEdges(fo.fn, start)
+	edges, _ := core.GuardEdges(fo.fn, start)
 	back := loopBackEdges(fo.fn)
 	if len(edges) > 0 {
 		cut, cnt := core.PassEdges(fo.fn, guards...)
@@ -87,7 +87,7 @@ func (c *Ctx) fanoutFilteredFrom(fo fanout, start core.Guard, guards ...core.Gua
 	}
 	// extracted decision predicate
 	startsOf := func(fn *ssa.Function) map[core.Edge]bool {
-		pe, _ := core.PassEdges(fn, start)
+		pe, _ := core.GuardEdges(fn, start)
 		return pe
 	}
 	for _, b := range fo.fn.Blocks {
@@ -135,9 +135,30 @@ func (c *Ctx) pssdUid() core.VPred {
 	return core.IsFieldLoad(c.field("server", "perSessionData", "uid"))
 }
 
+// gUserIsReader: `userIsReader(pssd.uid)` or, when that helper was inlined, IsReader() on the
+// want&given pair returned by getPerUserAcs(pssd.uid).
 func (c *Ctx) gUserIsReader(want bool) core.Guard {
-	uir := c.method("server", "Topic", "userIsReader")
-	return core.BoolGuard("userIsReader(pssd.uid)", core.IsCallTo(uir, nil, c.pssdUid()), want)
+	uir := c.P.Method("server", "Topic", "userIsReader")
+	gpa := c.P.Method("server", "Topic", "getPerUserAcs")
+	isReader := c.E().modeMethod("IsReader")
+	if uir == nil && gpa == nil {
+		c.lost("method server.Topic.userIsReader / getPerUserAcs")
+	}
+	return core.BoolGuard("userIsReader(pssd.uid)", func(v ssa.Value) bool {
+		if uir != nil && core.IsCallTo(uir, nil, c.pssdUid())(v) {
+			return true
+		}
+		if gpa == nil || !core.IsCallTo(isReader)(v) {
+			return false
+		}
+		recv := core.Strip(core.Strip(v).(*ssa.Call).Call.Args[0])
+		b, ok := recv.(*ssa.BinOp)
+		if !ok || !c.pairCall(recv) {
+			return false
+		}
+		ex := core.Strip(b.X).(*ssa.Extract)
+		return core.IsCallTo(gpa, nil, c.pssdUid())(ex.Tuple)
+	}, want)
 }
 
 func (c *Ctx) gIsChanSub(want bool) core.Guard {
